@@ -1035,9 +1035,13 @@ class C09(Base):
                 elif z < 0.27:
                     q["per"] = rng.choice(["HOUR", "DAY"])
                     feat.append("PERts:" + q["per"])
-                if (q.get("by") or q.get("per")) and rng.random() < 0.2:
+                if (q.get("by") or q.get("per")) and rng.random() < 0.25:
                     q["limit"] = rng.choice([1, 2, 100])
                     feat.append("LIMIT")
+                    if rng.random() < 0.4:
+                        # OFFSET skips groups (which ones is unspecified without an order): the number of groups is decided
+                        q["offset"] = rng.choice([1, 1, 2, 50])
+                        feat.append("OFFSET")
                 qs.append(("query", dict(base), "sel:" + "+".join(f for f in feat if f in ("FOR", "WHERE"))))
                 qs.append(("agg", q, "agg:" + "+".join(feat)))
             return qs
